@@ -319,3 +319,12 @@ extend("C08", "A-IDENT", "an enum field is exported for every name and capitaliz
 extend("C09", "A-DEDUP, A-IDENT", "defaults belong to the declaration a schema is bound to; a defaulted field is exported.")
 extend("C11", "A-DECLSET", "the alias of a referenced anyOf branch is declared once; two inline anyOf branches declaring one property enforce their own keywords only; # inside a composition.")
 extend("C20", "A-DECLSET", "a declaration reached twice in one run is emitted once.")
+# ---- round 9 additions
+extend("C06", "A-REJ:lossy (narrowing conversions)", "a length limit never reaches the emitted check through a narrowing integer conversion (2^31 would wrap).")
+extend("C07", "", "a length limit never reaches the emitted check through a narrowing integer conversion.")
+extend("C02", "", "a string format on a non-string type leaves the type alone.")
+extend("C03", "", "string formats without a library type (duration, uri, uuid) stay strings; string formats on non-string types are annotations.")
+extend("C09", "", "object defaults that list some of the declared properties; object default on a reference back to a definition in progress.")
+extend("C10", "A-REFNAMES", "both pointer prefixes in any capitalisation name the definition written after them.")
+extend("C08", "", "bounded integer enums keep carrier and table in agreement (also under --min-sized-ints).")
+extend("C11", "", "required names that differ only in case are two names.")
